@@ -77,6 +77,62 @@ theorem records_of_table (d : Char) (eol : Str) (t : Table) (trimWs : Bool) (fil
 theorem inputs_positionwise (o : NumOracle F) (ds : List Dom) (xs : List Str) (h : ∀ d ∈ ds, d ≠ .void) :
     inputVals o ds xs = List.zipWith (cellVal o) ds xs := inputVals_noVoid o ds xs h
 
+/-! ### `setup_terminals` -/
+
+theorem setupVarsGo_var (guards : Bool) (cats : List (Option Nat × Dom)) : ∀ (cs : List Col) (i v j : Nat)
+    (hj : j < (setupVarsGo guards cats cs i v).length), ((setupVarsGo guards cats cs i v)[j]).var = v + j := by
+  intro cs
+  induction cs with
+  | nil => intro i v j hj; simp [setupVarsGo] at hj
+  | cons c cs ih =>
+    intro i v j hj
+    by_cases h : (guards && decide (c.dom = .void)) = true
+    · have he : setupVarsGo guards cats (c :: cs) i v = setupVarsGo guards cats cs (i + 1) v := by
+        rw [setupVarsGo]; simp only [h, if_true]
+      simp only [he] at hj ⊢
+      exact ih (i + 1) v j hj
+    · have he : setupVarsGo guards cats (c :: cs) i v =
+          { name := varName c i, var := v, category := (cats.getD i (none, .void)).1 } ::
+            setupVarsGo guards cats cs (i + 1) (v + 1) := by
+        simp only [Bool.not_eq_true] at h
+        rw [setupVarsGo]; simp only [h, Bool.false_eq_true, if_false]
+      simp only [he] at hj ⊢
+      cases j with
+      | zero => simp
+      | succ j =>
+        simp only [List.length_cons, Nat.add_lt_add_iff_right] at hj
+        simp only [List.getElem_cons_succ]
+        rw [ih (i + 1) (v + 1) j hj]; omega
+
+theorem setupVarsGo_length (cats : List (Option Nat × Dom)) : ∀ (cs : List Col) (i v : Nat),
+    (setupVarsGo true cats cs i v).length = ((cs.map (·.dom)).filter (fun d => d ≠ .void)).length := by
+  intro cs
+  induction cs with
+  | nil => intro i v; rfl
+  | cons c cs ih =>
+    intro i v
+    unfold setupVarsGo
+    by_cases h : c.dom = .void
+    · simp [h, ih]
+    · simp [h, ih]
+
+theorem setupVarsGo_names (guards : Bool) (cats : List (Option Nat × Dom)) : ∀ (cs : List Col) (i v : Nat),
+    (setupVarsGo guards cats cs i v).map (·.name) =
+      ((cs.zipIdx i).filter (fun p => !(guards && p.1.dom = .void))).map (fun p => varName p.1 p.2) := by
+  intro cs
+  induction cs with
+  | nil => intro i v; rfl
+  | cons c cs ih =>
+    intro i v
+    unfold setupVarsGo
+    by_cases h : (guards && decide (c.dom = .void)) = true
+    · simp only [h, if_true, List.zipIdx_cons, List.filter_cons, Bool.not_true, Bool.false_eq_true, if_false]
+      exact ih (i + 1) v
+    · simp only [h, if_false, List.zipIdx_cons, List.filter_cons, List.map_cons]
+      simp only [Bool.not_eq_true] at h
+      simp only [h, Bool.not_false, if_true, List.map_cons, Bool.false_eq_true, if_false]
+      rw [ih (i + 1) (v + 1)]
+
 /-- `Clean` by evaluation -/
 theorem clean_of_all (f : Str) (h : f.all (fun c => c != '\x00' && c != '\r' && c != '\n') = true) : Clean f := by
   intro c hc
